@@ -6,6 +6,7 @@ Property theorems only; helper lemmas live in `Dtn7.Lemmas.{Mtcp,Bbc,BbcFrag}`.
 import Dtn7.Model.Mtcp
 import Dtn7.Model.Bbc
 import Dtn7.Lemmas.Mtcp
+import Dtn7.Lemmas.MtcpBundles
 import Dtn7.Lemmas.Bbc
 import Dtn7.Gen.C12
 
@@ -141,12 +142,54 @@ theorem mtcp_prefix {B} (c : Codec B) (hg : Lemmas.Good c)
     (server c ((items.flatMap (encItem c)).take k)).1 <+: bundlesOf items :=
   Lemmas.server_prefix c hg hcut items k
 
+/-! ### … composed with the real bundle codec (C01): no abstract codec hypothesis left -/
+
+/-- **mtcp_stream_bundles**: for every list of bundles that the wire can carry (`Encodable`), that are valid at
+the receiver's clock and whose encoding is shorter than 2^64 bytes, and for EVERY interleaving with keep-alives,
+the server loop — reading heads and handing the stream to the real `Bundle.UnmarshalCbor` model — reports
+exactly those bundles, in order, and ends cleanly. (`cfg.strict`: the repaired decoder, as pinned by C01's facts.) -/
+theorem mtcp_stream_bundles (cfg : Dtn7.Bundle.Cfg) (hs : cfg.strict = true) (now : Nat)
+    (items : List (Item Dtn7.Bundle.Bundle)) (hP : ∀ b ∈ bundlesOf items, Bundles.Sendable cfg now b) :
+    server (Bundles.codec cfg now) (items.flatMap (encItem (Bundles.codec cfg now))) = (bundlesOf items, .eof) :=
+  Lemmas.server_stream_on (Bundles.codec cfg now) (Bundles.codec_good cfg hs now) items hP
+
+/-- **mtcp_prefix_bundles**: a connection cut after ANY number of bytes yields a prefix of the sent bundles — never a
+different bundle. No hypothesis about the codec is left: "a strict prefix of a bundle's encoding is not accepted as
+a bundle" is `bundle_truncated_rejected` below (C01's exact consumption + extension stability of the real parser,
+`Dtn7.Lemmas.BundleStable`). -/
+theorem mtcp_prefix_bundles (cfg : Dtn7.Bundle.Cfg) (hs : cfg.strict = true) (now : Nat)
+    (items : List (Item Dtn7.Bundle.Bundle)) (hP : ∀ b ∈ bundlesOf items, Bundles.Sendable cfg now b) (k : Nat) :
+    (server (Bundles.codec cfg now) ((items.flatMap (encItem (Bundles.codec cfg now))).take k)).1 <+: bundlesOf items :=
+  Lemmas.server_prefix_on (Bundles.codec cfg now) (Bundles.codec_good cfg hs now)
+    (fun b hb k hk x hx => Bundles.parse_truncated cfg hs now b hb k hk x ((Bundles.codec_parse_ok cfg now _ x).mp hx))
+    items hP k
+
+/-- No strict prefix of a sendable bundle's serialisation is accepted by `Bundle.UnmarshalCbor`. -/
+theorem bundle_truncated_rejected (cfg : Dtn7.Bundle.Cfg) (hs : cfg.strict = true) (now : Nat)
+    (b : Dtn7.Bundle.Bundle) (hb : Bundles.Sendable cfg now b) (k : Nat)
+    (hk : k < (Dtn7.Bundle.serializeRaw b).length) (x : Dtn7.Bundle.Bundle × Bytes) :
+    Dtn7.Bundle.parse cfg now ((Dtn7.Bundle.serializeRaw b).take k) ≠ .ok x :=
+  Bundles.parse_truncated cfg hs now b hb k hk x
+
+/-- What the real parser accepts on a byte string it accepts, with the same bundle, when more bytes follow. -/
+theorem bundle_parse_extension_stable (cfg : Dtn7.Bundle.Cfg) (now : Nat) (p : Bytes) (b : Dtn7.Bundle.Bundle)
+    (r t : Bytes) (h : Dtn7.Bundle.parse cfg now p = .ok (b, r)) :
+    Dtn7.Bundle.parse cfg now (p ++ t) = .ok (b, r ++ t) :=
+  Dtn7.Bundle.Stable.parse_stable cfg now p b r t h
+
+/-- Non-vacuity of `Sendable` (the example bundle of C01: a fragment with ipn source, five blocks, CRC-16/32). -/
+example : Bundles.Sendable {} 800000000000
+    ⟨⟨7, 1 + 2 ^ 17, 1, .dtn [110, 49] [97, 47, 98], .ipn 23 42, .none, 799999990000, 7, 3600000, 256, 70000⟩,
+     [⟨2, 1, 2, .prevNode (.dtn [103, 119] [])⟩, ⟨3, 0, 1, .hop 30 30⟩, ⟨4, 16, 0, .age 65536⟩,
+      ⟨9, 0, 2, .generic 4000000000 [1, 2, 3]⟩, ⟨1, 0, 2, .payload [104, 105]⟩]⟩ := by
+  decide +kernel
+
 /-- Non-vacuity: a toy codec (one byte `b` encoded as `[b]`) satisfies the hypotheses … -/
 def toyCodec : Codec UInt8 :=
   { enc := fun b => [b], parse := fun bs => match bs with | [] => .error .eof | b :: r => .ok (b, r) }
 
 theorem toy_good : Lemmas.Good toyCodec :=
-  ⟨fun _ _ => rfl, fun _ => by simp [toyCodec], fun _ => by simp [toyCodec]⟩
+  Lemmas.Good.mk' (fun _ _ => rfl) (fun _ => by simp [toyCodec]) (fun _ => by simp [toyCodec])
 
 example : server toyCodec ([Item.keepalive, .bundle 7, .keepalive, .keepalive, .bundle 9].flatMap (encItem toyCodec)) =
     ([7, 9], .eof) := by decide
